@@ -74,8 +74,14 @@ def bank_queue(ctx):
         bad = [l for l in look_users if not (l.kind == "assign" and key(l.target) == a10)]
         ob.instance("%s: readers of the look-ahead entry's payload" % tag, [str(l)[:160] for l in look_users])
         for l in bad:
-            ob.refute("lookahead-read:%s" % key(l.target), "%s depends on the look-ahead FIFO's output payload, not on the queue head: %s" %
-                      (key(l.target) if l.target is not None else "a transition", str(l)[:200]), l.loc)
+            tk = key(l.target) if l.target is not None else None
+            # positive witness: what the DRAM sees (the command record), the row the machine believes open, or the FSM's course
+            if tk is None or l.kind == "next" or tk.startswith(cmdk + ".") or tk == key(R.belief):
+                ob.refute("lookahead-read:%s" % tk, "%s depends on the look-ahead FIFO's output payload, not on the queue head: %s" %
+                          (tk if tk is not None else "a transition", str(l)[:200]), l.loc)
+            else:
+                ob.unknown("%s: %s is computed from the look-ahead FIFO's output payload (%s): whether it is only used once that entry has become the "
+                           "queue head is not decided" % (tag, tk, str(l)[:160]))
         heads = 0
         for tgt in (cmdk + ".a", key(R.belief)):
             for l in v.drivers(tgt):
